@@ -29,7 +29,7 @@ import (
 var c07Breaks = []string{
 	"none", "no-secret", "no-payload", "no-transport", "disabled-transport", "unknown-transport", "unknown-generation",
 	"station-v4-off", "station-v6-off", "client-no-v4", "client-no-v6", "ipv6-registrant", "phantom-blocklisted",
-	"forbidden-covert", "malformed-covert", "live-phantom", "prescanned+live", "override-phantom", "override-to-blocklisted", "override-port",
+	"forbidden-covert", "malformed-covert", "live-phantom", "prescanned+live", "override-phantom", "override-to-blocklisted", "override-port", "mapped-override-ipv6-registrant",
 }
 
 var c07Sources = []pb.RegistrationSource{pb.RegistrationSource_API, pb.RegistrationSource_Detector, pb.RegistrationSource_BidirectionalAPI, pb.RegistrationSource_DNS, pb.RegistrationSource_DetectorPrescan}
@@ -119,6 +119,15 @@ func c07Scenario(r *sim.Run) {
 				pc.covert = "203.0.113.77:443"
 				m = &c07Msg{c: pc, breaks: map[string]bool{"retry": true}, phantom: prev.phantom, bytes: pc.regMessage(nil)}
 				r.Probe("retry_after_rejected_covert")
+			} else if duplicate && len(prev.breaks) == 0 && (prevAdmitted[0] || prevAdmitted[1]) && tp.Bool("dup-with-forbidden-covert") {
+				// the same client registers again, this time naming a covert address the policy forbids:
+				// whatever the station does with the repeat, the registration that connections are
+				// matched to must not end up with an unchecked covert (judged by the stored-covert clause)
+				pc := prev.c
+				pc.covert = "10.1.2.3:443"
+				prev.bytes = pc.regMessage(nil)
+				m = prev
+				r.Probe("duplicate_with_forbidden_covert")
 			} else if duplicate {
 				m = prev
 			} else {
@@ -159,6 +168,18 @@ func c07Scenario(r *sim.Run) {
 				}
 				if m.breaks["client-no-v6"] {
 					c.v6 = false
+				}
+				if m.breaks["mapped-override-ipv6-registrant"] {
+					// the registrar response carries an IPv4-mapped address in its IPv6 override field and
+					// the registrant is IPv6: the only registration of this (IPv6-only) client would have
+					// an IPv4 phantom, which needs an IPv4 registrant
+					for k := range m.breaks {
+						if k != "mapped-override-ipv6-registrant" {
+							delete(m.breaks, k)
+						}
+					}
+					c.v4 = false
+					c.regAddr = net.ParseIP("2001:db8:99::1")
 				}
 				if m.breaks["ipv6-registrant"] {
 					c.regAddr = net.ParseIP("2001:db8:99::1")
@@ -205,6 +226,11 @@ func c07Scenario(r *sim.Run) {
 						}
 						wr.RegistrationResponse = rr
 					}
+					if m.breaks["mapped-override-ipv6-registrant"] {
+						mapped := net.IPv4(192, 0, 2, 98).To16()
+						wr.RegistrationResponse = &pb.RegistrationResponse{Ipv6Addr: mapped}
+						m.phantom = [2]net.IP{nil, mapped}
+					}
 					if m.breaks["no-payload"] {
 						wr.RegistrationPayload = nil
 					}
@@ -250,6 +276,9 @@ func c07Scenario(r *sim.Run) {
 					famOK = c.v4 && !m.breaks["station-v4-off"] && registrantV4
 				} else {
 					famOK = c.v6 && !m.breaks["station-v6-off"]
+				}
+				if m.breaks["mapped-override-ipv6-registrant"] {
+					famOK = false
 				}
 				pre := complete && transportOK && genOK && famOK && covertOK
 				needsProbe := fam == 0 && !prescanned
